@@ -107,8 +107,8 @@ type Sim struct {
 	// SimOps counts channel operations and task starts: work the simulator does (and
 	// allocates for) on behalf of the code under test, for oracles that meter allocation.
 	SimOps int
-	nDone    int
-	pol      int
+	nDone  int
+	pol    int
 	// ClockSkew is added to every clock reading (clock faults).
 	ClockSkew int64
 }
